@@ -430,3 +430,49 @@ package model
 //@   ensures C07.tr.count: err == nil && len(b) > 5 ==> out[4] == b[4]
 //@   ensures C07.tr.ids: err == nil && len(b) > 5 ==> forall(k, 0, int(b[4]), be16(out, 5+2*k) == be16(b, 5+2*k))
 // (length, ID word, count byte and every 16-bit ID equal: together this is byte identity of out and b)
+
+// ---------------------------------------------------------------------------------------------
+// C07, 0x0805 (camera shoot reply): reply serial (2), result (1), count (2), count multimedia IDs (4 bytes each).
+// ---------------------------------------------------------------------------------------------
+//@ func (*T0x0805).Parse
+//@   mode contract
+//@   modifies *t
+//@   requires C07.empty: len(t.MultimediaIDList) == 0 && cap(t.MultimediaIDList) == 0
+//@   loop 1 decreases int(t.MultimediaIDNumber) - i
+//@   loop 1 invariant i: 0 <= i && i <= int(t.MultimediaIDNumber)
+//@   loop 1 invariant n: len(t.MultimediaIDList) == old(len(t.MultimediaIDList)) + i
+//@   loop 1 invariant layout: len(body) == 5 + 4*int(t.MultimediaIDNumber) && t.MultimediaIDNumber == be16(body, 3) && t.RespondSerialNumber == be16(body, 0) && t.Result == body[2]
+//@   loop 1 invariant body: ptr(body) == old(ptr(jtMsg.Body)) && len(body) == old(len(jtMsg.Body))
+//@   loop 1 invariant ids: forall(k, 0, i, t.MultimediaIDList[k] == be32(body, 5+4*k))
+//@   loop 1 invariant own: cap(t.MultimediaIDList) == 0 || fresh(t.MultimediaIDList)
+//@   ensures C07.ok: iff(result == nil, old(len(jtMsg.Body) >= 5 && len(jtMsg.Body) == 5 + 4*int(be16(jtMsg.Body, 3))))
+//@   ensures C07.head: result == nil ==> t.RespondSerialNumber == old(be16(jtMsg.Body, 0)) && t.Result == old(jtMsg.Body[2]) && t.MultimediaIDNumber == old(be16(jtMsg.Body, 3))
+//@   ensures C07.count: result == nil ==> len(t.MultimediaIDList) == int(t.MultimediaIDNumber)
+//@   ensures C07.ids: result == nil ==> forall(k, 0, len(t.MultimediaIDList), t.MultimediaIDList[k] == old(be32(jtMsg.Body, 5+4*k)))
+
+//@ func (*T0x0805).Encode
+//@   mode contract
+//@   modifies nothing
+//@   ensures C07.fresh: fresh(result)
+//@   loop 1 invariant idx: 0 <= i && i <= len(t.MultimediaIDList)
+//@   loop 1 invariant fresh: fresh(data)
+//@   loop 1 invariant len: len(data) == 5 + 4*i
+//@   loop 1 invariant head: be16(data, 0) == t.RespondSerialNumber && data[2] == t.Result && be16(data, 3) == t.MultimediaIDNumber
+//@   loop 1 invariant ids: forall(k, 0, i, be32(data, 5+4*k) == t.MultimediaIDList[k])
+//@   loop 1 decreases len(t.MultimediaIDList) - i
+//@   ensures C07.len: len(result) == 5 + 4*len(t.MultimediaIDList)
+//@   ensures C07.head: be16(result, 0) == t.RespondSerialNumber && result[2] == t.Result && be16(result, 3) == t.MultimediaIDNumber
+//@   ensures C07.ids: forall(k, 0, len(t.MultimediaIDList), be32(result, 5+4*k) == t.MultimediaIDList[k])
+
+//@ func rtT0x0805
+//@   requires C07.in: x != nil && int(x.MultimediaIDNumber) == len(x.MultimediaIDList)
+//@   ensures C07.rt.ok: err == nil
+//@   ensures C07.rt.head: y.RespondSerialNumber == x.RespondSerialNumber && y.Result == x.Result && y.MultimediaIDNumber == x.MultimediaIDNumber
+//@   ensures C07.rt.len: len(y.MultimediaIDList) == len(x.MultimediaIDList)
+//@   ensures C07.rt.ids: forall(k, 0, len(x.MultimediaIDList), y.MultimediaIDList[k] == x.MultimediaIDList[k])
+//@   ensures C07.rt: err == nil && deepeq(y, *x)
+// (length, header fields and every 32-bit ID equal: together this is byte identity of out and b)
+//@ func trT0x0805
+//@   ensures C07.tr.len: err == nil ==> len(out) == len(b)
+//@   ensures C07.tr.head: err == nil ==> be16(out, 0) == be16(b, 0) && out[2] == b[2] && be16(out, 3) == be16(b, 3)
+//@   ensures C07.tr.ids: err == nil ==> forall(k, 0, int(be16(b, 3)), be32(out, 5+4*k) == be32(b, 5+4*k))
